@@ -20,6 +20,10 @@ CHECKS = {
     text="TLC evaluates the selection semantics for every (document, path) of MC_Query; every operator application that could be undefined sits behind a guard returning no match or the YAML-Path-error outcome, so TLC completing the run is the totality theorem within the bounds. Every emitted case, including keyword-search, collector-over-scalars, ill-formed-regex and repeated-traversal families, is replayed into get_nodes(mustexist=True), get_nodes() and exists(); the projection is the outcome class only.",
     note="Trusted: TLC; CPython's exception hierarchy. Bounds as C01 plus the C15 families (7 keywords x 2 x parameter texts, 5 ill-formed regular expressions, collector pairs with + - &). Collector cases whose operands select containers are outside the property's stated domain and skipped.",
     technique="TLA+ totality of the selection model (TLC) + S->C replay judged by exception class", ref="4/C15"),
+ "C12": dict(
+    text="TLC (MC_Compare) enumerates the complete grid 9 operators x 40 needles x 40 typed haystacks as states, checks the algebraic laws of the documented comparison (trichotomy and duality of ordering on numbers, numeric-vs-text ordering false, prefix/suffix imply contains, textual equality, boolean spelling) and emits the expected answer of every cell; each cell is replayed into Searches.search_matches on values loaded by yamlpath's own loader; inversion is checked as a partition of the candidates by (plain, inverted) query pairs over the MC_Query corpus.",
+    note="Trusted: TLC; Matches in spec/YCompare.tla as the reading of CHANGES 3.5/3.6 and the property text; PyLit as the abstraction of ast.literal_eval on the pool's alphabet. Cells the documentation leaves open (bool-as-int, None look-alikes, non-canonical float text, regex outside the modelled fragment) are informational. Regular expressions: literals, '.', postfix '*', '^', '$', escaped literals.",
+    technique="TLA+ comparison ladder + laws checked by TLC over the full grid, S->C replay", ref="4/C12"),
 }
 NA_REASON = "check not built yet in this round (specification family under construction; see DESIGN.md section 9)"
 def main():
